@@ -101,8 +101,6 @@ Definition local_ok (s : fstate) (nown : nid -> tid) (t : tid) (th : thread) : P
   | PQb1 | PQb2 _ | PQb3 _ _ | PQb4 _ => True
   end.
 
-Definition qb_target (th : thread) : option N :=
-  match tpc th with PQb2 tg | PQb3 tg _ | PQb4 tg => Some tg | _ => tret th end.
 
 Definition in_await (th : thread) (n : nid) : bool :=
   match tpc th with PAb2 m _ | PAb3 m _ _ => Nat.eqb m n | _ => false end.
